@@ -83,10 +83,10 @@ def _walk_funcs(node, out):
                 _walk_funcs(c, out)
 
 
-def find_function(tu_path, qname, sig, workdir, extra_flags=(), mangled=None):
+def find_function(tu_path, qname, sig, workdir, extra_flags=(), mangled=None, dump_filter=None):
     """Find the definition (with body) of qname whose type.qualType == sig
     (or whose mangledName == mangled)."""
-    docs = dump(tu_path, qname, workdir, extra_flags)
+    docs = dump(tu_path, dump_filter or qname, workdir, extra_flags)
     short = qname.split('::')[-1]
     cands = []
     for d in docs:
